@@ -33,6 +33,7 @@ struct pool_job {
     std::optional<cocls::promise<void>> gate_prom;
     std::atomic<int> submitted{0};
     std::atomic<int> outer_ran{0};
+    bool throws = false; // run(fn) / run(async): the job ends with an exception, which must reach the returned future
 };
 struct pool_round {
     cocls::thread_pool *pool = nullptr; // raw pointer: jobs still running while the pool is being destroyed must not see a changing owner object
@@ -78,6 +79,7 @@ inline cocls::async<void> pj_await_awt(pool_round &X, pool_job &j) {
 inline cocls::async<int> pj_async_body(pool_round &X, pool_job &j, tracked arg) {
     if (!is_current(*X.pool)) j.off_worker.fetch_add(1, std::memory_order_relaxed);
     j.ran.fetch_add(1, std::memory_order_relaxed);
+    if (j.throws) throw vf::test_exc{77};
     co_return (int)arg.id;
 }
 inline cocls::async<void> pj_parked(pool_round &X, pool_job &j) {
@@ -103,6 +105,7 @@ inline void pool_submit(pool_round &X, pool_job &j) {
         j.fut = std::unique_ptr<cocls::future<int>>(new cocls::future<int>(P.run([&X, &j, g = closure_guard(&j)]() -> int {
             if (!is_current(*X.pool)) j.off_worker.fetch_add(1, std::memory_order_relaxed);
             j.ran.fetch_add(1, std::memory_order_relaxed);
+            if (j.throws) throw vf::test_exc{77};
             return 42;
         })));
         break;
@@ -145,8 +148,9 @@ inline void pool_mt(const vf::opts &o, vf::report &R, vf::team &T, uint64_t roun
             for (int i = 0; i < X.njobs[s]; i++) {
                 pool_job &j = X.jobs[s][i];
                 j.kind = (int)r.below(PK_NKINDS);
+                j.throws = (j.kind == PK_RUN_FN || j.kind == PK_RUN_ASYNC) && r.chance(1, 4);
                 if (j.kind == PK_AWAIT_POOL_AWT || j.kind == PK_RESUME_SP) { j.gate = std::make_unique<cocls::future<void>>(); j.gate_prom.emplace(j.gate->get_promise()); }
-                desc += std::string(pk_name(j.kind)) + ", ";
+                desc += std::string(pk_name(j.kind)) + (j.throws ? " throwing, " : ", ");
             }
         }
         X.pool = new cocls::thread_pool((unsigned)nworkers);
@@ -207,8 +211,10 @@ inline void pool_mt(const vf::opts &o, vf::report &R, vf::team &T, uint64_t roun
             if (j.fut) {
                 if (!j.fut->ready()) { if (err.empty()) { err = std::string(pk_name(j.kind)) + ": returned future is still pending after the pool is gone (waiter would hang)"; errkind = j.kind; } continue; }
                 fo = read_future(*j.fut, nullptr, 0);
+                if (fo.state == PS_VALUE && j.throws && err.empty()) { err = std::string(pk_name(j.kind)) + ": the job threw but the future holds a value"; errkind = j.kind; }
                 if (fo.state == PS_VALUE) { if (ran != 1 && err.empty()) { err = std::string(pk_name(j.kind)) + ": future has a value but the job ran " + std::to_string(ran) + " times"; errkind = j.kind; } }
                 else if (fo.state == PS_CANCELED) { can = 1; if (ran != 0 && err.empty()) { err = std::string(pk_name(j.kind)) + ": broken promise although the job ran"; errkind = j.kind; } }
+                else if (fo.state == PS_EXC && fo.code == 77 && j.throws) { if (ran != 1 && err.empty()) { err = std::string(pk_name(j.kind)) + ": future holds the job's exception but the job ran " + std::to_string(ran) + " times"; errkind = j.kind; } }
                 else if (err.empty()) { err = std::string(pk_name(j.kind)) + ": unexpected future state " + fo.str(); errkind = j.kind; }
             } else if (j.kind == PK_RUN_DETACHED || j.kind == PK_CURRENT) {
                 if (j.closure_dead.load() != 1 && err.empty()) { err = std::string(pk_name(j.kind)) + ": job closure destroyed " + std::to_string(j.closure_dead.load()) + " times"; errkind = j.kind; }
